@@ -797,6 +797,11 @@ def run_circle(case, seed, R):
             if m is None:
                 continue
             compare(R, m, inside, band, f'{sig}:membership', f'{prim} radius {rad} centre {(x0, y0)}')
+            if prim == 'offset_circle':
+                c = as_mask(R, R.call(geometry.circle, rad, rr), (n0, n1), 'circle', f'circle({rad})')
+                if c is not None:
+                    R.expect(np.array_equal(m, c), 'offset_circle!=circle',
+                             f'offset_circle({rad}, centre {(x0, y0)}) differs from circle({rad}) on hypot(x - x0, y - y0) at {int((m != c).sum())} samples')
             if centred:
                 check_symmetry(R, m, inside, band, n0, n1, group_of('circle'), sig, f'{prim} radius {rad}')
             R.nontrivial(inside.any() and not inside.all())
@@ -817,6 +822,20 @@ def run_circle(case, seed, R):
                     if m is None:
                         continue
                     compare(R, m, inside, band, f'{sig}:membership', f'annulus {rin}..{rout} centre {(x0, y0)}')
+                    # relations between primitives that hold sample for sample, whatever the band: an annulus without a hole is
+                    # the disc; with no sample exactly on the inner radius it is the outer disc minus the inner disc
+                    c_out = as_mask(R, R.call(geometry.circle, rout, rho), (n0, n1), 'circle', f'circle({rout})')
+                    c_in = as_mask(R, R.call(geometry.circle, rin, rho), (n0, n1), 'circle', f'circle({rin})')
+                    if c_out is not None and c_in is not None:
+                        if rin == 0:
+                            dif = m != c_out
+                            R.expect(not dif.any(), 'annulus:rin=0!=circle',
+                                     f'annulus(0, {rout}) differs from circle({rout}) at {int(dif.sum())} samples, e.g. (row, col) '
+                                     f'{np.argwhere(dif)[:3].tolist()} (radii {rr[dif][:3].tolist()}): a hole was punched into a disc')
+                        if not (rr == rin).any():
+                            dif = m != (c_out & ~c_in)
+                            R.expect(not dif.any(), 'annulus!=circle-minus-circle',
+                                     f'annulus({rin}, {rout}) differs from circle({rout}) & ~circle({rin}) at {int(dif.sum())} samples although no sample lies on the inner radius')
                     if centred:
                         check_symmetry(R, m, inside, band, n0, n1, group_of('circle'), sig, f'annulus {rin}..{rout}')
                     R.nontrivial(inside.any() and not inside.all())
@@ -843,6 +862,10 @@ def run_circle(case, seed, R):
                 R.expect(bool((m[rr >= rad + hp + t] == 0).all()), f'{sig}:exterior', 'samples more than half a pixel outside the radius are not 0')
                 ramp = np.clip((rad + hp - rr) / (2 * hp), 0, 1)
                 R.expect_close(m, ramp, 1e-9, f'{sig}:ramp', f'truecircle({rad}): linear one-pixel ramp centred on the radius')
+                c = as_mask(R, R.call(geometry.circle, rad, rr), (n, n), 'circle', f'circle({rad})')
+                if c is not None:
+                    dif = ((m >= 0.5) != c) & (np.abs(rr - rad) > 1e-9)
+                    R.expect(not dif.any(), 'truecircle:half-level!=circle', f'truecircle({rad}) >= 0.5 differs from circle({rad}) at {int(dif.sum())} samples')
                 for e, v in d4_views(symmetric_part(m, n, n)).items():
                     R.expect(bool(np.abs(v - symmetric_part(m, n, n)).max() <= 1e-12), f'{sig}:symmetry:{e}', f'truecircle({rad}) not invariant under {e}')
                 R.nontrivial()
@@ -890,6 +913,12 @@ def run_rect(case, seed, R):
         if m is None:
             continue
         compare(R, m, inside, band, f'{sig}:membership', f'{prim} half-widths ({w}, {hgt}) angle {ang} centre {(x0, y0)}')
+        if prim == 'rectangle' and ang in (0, 90):
+            # axis-aligned: pure comparisons on the given coordinates, inclusive edges (tests/test_geometry.py pins that a sample at
+            # x == -width belongs to the rectangle) -- exact, boundary samples included
+            ex = ((np.abs(xs) <= w) & (np.abs(ys) <= hgt)) if ang == 0 else ((np.abs(ys) <= w) & (np.abs(xs) <= hgt))
+            R.expect(np.array_equal(m, ex), f'{sig}:exact-inclusive',
+                     f'rectangle({w}, height {hgt}, angle {ang}) differs from |x| <= w & |y| <= h at {int((m != ex).sum())} samples (edges included)')
         if centred:
             check_symmetry(R, m, inside, band, n0, n1, group_of('axes', angle=ang, equal=equal), sig, f'{prim} ({w}, {hgt}) angle {ang}')
         R.nontrivial(inside.any() and not inside.all())
@@ -979,6 +1008,8 @@ def run_spider(case, seed, R):
         if m is None:
             continue
         compare(R, m, inside, band, f'{sig}:membership', f'spider {vanes} vanes width {w} rotation {rot} centre {(x0, y0)}')
+        if w == 0:
+            R.expect(bool(m.all()), 'spider:zero-width', f'a spider with vanes of zero width obscures {int((~m).sum())} samples')
         if centred:
             check_symmetry(R, m, inside, band, n0, n1, group_of('spider', vanes=vanes, rot=rot), sig, f'spider {vanes} vanes width {w} rotation {rot}')
         R.nontrivial(inside.any() and not inside.all())
@@ -1167,7 +1198,9 @@ def plan(tier, seed):
                   'layouts A,B x grids x fill x gap x rotation x basis {polar, Cartesian}: operator matrix of compose_opd over (centre + segments, mode): confinement, piston, linearity, homogeneity over the scale alphabet {1e-3, 1e-9, 1e-12, -1e-9} and a mixed-scale array, repeatability', reset=rs),
         ScopeUnit('prim_circle', circ_cases, run_circle,
                   f'circle / annulus / offset_circle on every grid x dx x centre offset {offs} samples x the sorted radius alphabet {CIRC_R} samples (annulus: 3 inner x 6 outer and 2 outer x 6 inner); '
-                  'truecircle on the normalised grid for n in {48,49,64,65}; cart_to_polar against hypot/atan2: membership, monotone growth, full D4 symmetry on the index-symmetric part', reset=rs),
+                  'truecircle on the normalised grid for n in {48,49,64,65}; cart_to_polar against hypot/atan2: membership, monotone growth, full D4 symmetry on the index-symmetric part; '
+                  'sample-for-sample relations that ignore the band: annulus(0, R) == circle(R), annulus(rin, rout) == circle(rout) & ~circle(rin) when no sample lies on rin, '
+                  'offset_circle == circle on the shifted radius, truecircle >= 0.5 == circle', reset=rs),
         ScopeUnit('prim_rect_ellipse', rect_cases, run_rect,
                   f'rectangle (height None / 0.5 / 1.7 x width) and rotated_ellipse (minor = 1 / 0.6 / 0.25 x major) x angle {{0, 90, 45, 30, -17.5, 180}} x offsets x sorted sizes {RECT_S}: '
                   'membership, monotone growth, the symmetries of the rotated shape that map the grid to itself', reset=rs),
